@@ -203,7 +203,7 @@ def rmResult (s : Store) (i : Nat) (nms : List Int) : Store :=
 
 /-- shape of the non-degenerate branch -/
 theorem removeSubtree_shape {dt : Data} {s sub s' : Store} (h : s.removeSubtree dt sub = some s')
-    (hs : Inv s) (hleg : RmLegal s sub) (hne : Store.keyEq sub s = false) :
+    (hs : Inv0 s) (hleg : RmLegal s sub) (hne : Store.keyEq sub s = false) :
     ∃ i x par, s.forest.findSub i = some x ∧ sub.nodes.Perm ((x.1 :: x.2.recs).map (·.name)) ∧
       updatePathToRoot dt (rmResult s i sub.nodes) par = some s' := by
   obtain ⟨r, i, x, hr, hi, hx, hp⟩ := hleg hne
@@ -220,9 +220,9 @@ theorem removeSubtree_eq_init {dt : Data} {s sub s' : Store} (h : s.removeSubtre
   simp only [removeSubtree, he, if_true, Option.some.injEq] at h
   exact h.symm
 
-theorem rmResult_inv {s : Store} {i : Nat} {x : NodeRec × SF} {nms : List Int} (hs : Inv s)
+theorem rmResult_inv {s : Store} {i : Nat} {x : NodeRec × SF} {nms : List Int} (hs : Inv0 s)
     (hx : s.forest.findSub i = some x) (hp : nms.Perm ((x.1 :: x.2.recs).map (·.name))) :
-    Inv (rmResult s i nms) := by
+    Inv0 (rmResult s i nms) := by
   obtain ⟨hg, hm, hd, hout, hback⟩ :=
     rm_lists (removeSub_perm hs.1.idxs_nodup hx) hp hs.1.g hs.1.m hs.1.d
   refine ⟨(wf_iff _).2 ⟨hg, hm, hd⟩, fun n hn => ?_⟩
@@ -231,7 +231,7 @@ theorem rmResult_inv {s : Store} {i : Nat} {x : NodeRec × SF} {nms : List Int} 
   exact ⟨hs.2 n ((removeSub_sublist i s.forest).subset hn), by simpa using hout n hn⟩
 
 theorem removeSubtree_inv {dt : Data} {s sub s' : Store} (h : s.removeSubtree dt sub = some s')
-    (hs : Inv s) (hleg : RmLegal s sub) : Inv s' := by
+    (hs : Inv0 s) (hleg : RmLegal s sub) : Inv0 s' := by
   cases he : Store.keyEq sub s with
   | true => rw [removeSubtree_eq_init h he]; exact inv_init dt
   | false =>
@@ -242,7 +242,7 @@ theorem removeSubtree_inv {dt : Data} {s sub s' : Store} (h : s.removeSubtree dt
 
 /-- data: in the non-degenerate branch exactly the `_data` entries of the subtree's names disappear -/
 theorem removeSubtree_data {dt : Data} {s sub s' : Store} (h : s.removeSubtree dt sub = some s')
-    (hs : Inv s) (hleg : RmLegal s sub) (hne : Store.keyEq sub s = false) :
+    (hs : Inv0 s) (hleg : RmLegal s sub) (hne : Store.keyEq sub s = false) :
     (vals s.data).Perm (sub.nodes.flatMap s.dataOf ++ vals s'.data) := by
   obtain ⟨i, x, par, hx, hp, h⟩ := removeSubtree_shape h hs hleg hne
   have hnd : sub.nodes.Nodup :=
@@ -252,7 +252,7 @@ theorem removeSubtree_data {dt : Data} {s sub s' : Store} (h : s.removeSubtree d
 
 /-- graph: the clones of the subtree disappear, the others stay -/
 theorem removeSubtree_names {dt : Data} {s sub s' : Store} (h : s.removeSubtree dt sub = some s')
-    (hs : Inv s) (hleg : RmLegal s sub) (hne : Store.keyEq sub s = false) :
+    (hs : Inv0 s) (hleg : RmLegal s sub) (hne : Store.keyEq sub s = false) :
     s.forest.names.Perm (sub.nodes ++ s'.forest.names) := by
   obtain ⟨i, x, par, hx, hp, h⟩ := removeSubtree_shape h hs hleg hne
   have hc := (updatePathToRoot_spec h).1
@@ -265,7 +265,7 @@ theorem removeSubtree_names {dt : Data} {s sub s' : Store} (h : s.removeSubtree 
   exact this.trans (List.Perm.append_right _ hp.symm)
 
 theorem removeSubtree_outliers {dt : Data} {s sub s' : Store} (h : s.removeSubtree dt sub = some s')
-    (hs : Inv s) (hleg : RmLegal s sub) (hne : Store.keyEq sub s = false) :
+    (hs : Inv0 s) (hleg : RmLegal s sub) (hne : Store.keyEq sub s = false) :
     s'.outliers = s.outliers := by
   obtain ⟨i, x, par, hx, hp, h⟩ := removeSubtree_shape h hs hleg hne
   have hout : outKey ∉ sub.nodes := by
